@@ -4,6 +4,7 @@ import (
 	"fmt"
 	"math"
 	"reflect"
+	"strings"
 
 	"github.com/taurusgroup/multi-party-sig/pkg/ecdsa"
 	"github.com/taurusgroup/multi-party-sig/pkg/math/curve"
@@ -480,7 +481,8 @@ func c20Family(t *vk.T, fam string, rep int, env vk.Env) {
 		emptyR := doerner.EmptyConfigReceiver(group)
 		noSetup := &doerner.ConfigReceiver{SecretShare: dm.K.R.SecretShare, Public: dm.K.R.Public, ChainKey: dm.K.R.ChainKey}
 		for _, v := range []rv{{"nil-config", nil, ids[0], ids[1], msg}, {"empty-config", emptyR, ids[0], ids[1], msg}, {"config-without-ot-setup", noSetup, ids[0], ids[1], msg},
-			{"nil-message", dm.K.R, ids[0], ids[1], nil}, {"empty-message", dm.K.R, ids[0], ids[1], []byte{}}, {"self=other", dm.K.R, ids[0], ids[0], msg}} {
+			{"nil-message", dm.K.R, ids[0], ids[1], nil}, {"empty-message", dm.K.R, ids[0], ids[1], []byte{}},
+			{"empty-message-with-capacity", dm.K.R, ids[0], ids[1], make([]byte, 0, 32)}, {"empty-slice-of-message", dm.K.R, ids[0], ids[1], msg[:0]}, {"self=other", dm.K.R, ids[0], ids[0], msg}} {
 			sf, pan := sgR(v.c, v.self, v.oth, v.m)
 			if pan != "" {
 				t.Obs("evaluations", 1)
@@ -490,26 +492,39 @@ func c20Family(t *vk.T, fam string, rep int, env vk.Env) {
 			}
 			m := v.m
 			peerS, _ := sgS(dm.K.S, ids[1], ids[0], msg)
-			if v.name == "nil-message" || v.name == "empty-message" {
+			if strings.Contains(v.name, "message") {
 				peerS, _ = sgS(dm.K.S, ids[1], ids[0], m)
 			}
 			add(&c20Scenario{fn: "doerner.SignReceiver", param: "parameter", value: v.name, two: true, leaders: leadS, ids: two, expectKey: &key, msg: m, subjects: subj(ids[0]),
 				start: map[party.ID]protocol.StartFunc{ids[0]: sf, ids[1]: peerS}})
 		}
 		emptyS := doerner.EmptyConfigSender(group)
+		noSetupS := &doerner.ConfigSender{SecretShare: dm.K.S.SecretShare, Public: dm.K.S.Public, ChainKey: dm.K.S.ChainKey}
+		// the sender's lattice mirrors the receiver's: the two start functions validate separately, so a check
+		// weakened in one role only (e.g. an empty, non-nil digest) must be seen from that role
 		for _, v := range []struct {
 			name string
 			c    *doerner.ConfigSender
-		}{{"nil-config", nil}, {"empty-config", emptyS}} {
-			sf, pan := sgS(v.c, ids[1], ids[0], msg)
+			self party.ID
+			oth  party.ID
+			m    []byte
+		}{{"nil-config", nil, ids[1], ids[0], msg}, {"empty-config", emptyS, ids[1], ids[0], msg}, {"config-without-ot-setup", noSetupS, ids[1], ids[0], msg},
+			{"nil-message", dm.K.S, ids[1], ids[0], nil}, {"empty-message", dm.K.S, ids[1], ids[0], []byte{}},
+			{"empty-message-with-capacity", dm.K.S, ids[1], ids[0], make([]byte, 0, 32)}, {"empty-slice-of-message", dm.K.S, ids[1], ids[0], msg[:0]},
+			{"self=other", dm.K.S, ids[1], ids[1], msg}} {
+			sf, pan := sgS(v.c, v.self, v.oth, v.m)
 			if pan != "" {
 				t.Obs("evaluations", 1)
 				t.Distinct("doerner.SignSender|%s|panic-building-start-function", v.name)
 				t.Violation("doerner.SignSender|"+v.name+"|panic-building-start-function", "doerner.SignSender(%s) panicked before a handler could be constructed: %s", v.name, pan)
 				continue
 			}
-			add(&c20Scenario{fn: "doerner.SignSender", param: "parameter", value: v.name, two: true, leaders: leadS, ids: two, expectKey: &key, msg: msg, subjects: subj(ids[1]),
-				start: map[party.ID]protocol.StartFunc{ids[0]: goodR, ids[1]: sf}})
+			peerR := goodR
+			if strings.Contains(v.name, "message") {
+				peerR, _ = sgR(dm.K.R, ids[0], ids[1], v.m)
+			}
+			add(&c20Scenario{fn: "doerner.SignSender", param: "parameter", value: v.name, two: true, leaders: leadS, ids: two, expectKey: &key, msg: v.m, subjects: subj(ids[1]),
+				start: map[party.ID]protocol.StartFunc{ids[0]: peerR, ids[1]: sf}})
 		}
 		// refresh with nil configs
 		func() {
